@@ -5,15 +5,16 @@
    as milliseconds after set_timeouts.  This file states what the schedule must satisfy for the progress argument of
    C02 - the executable check `schedule_ok` - and what that check means (Proofs/TimerProofs.v).
 
-   D_BLOCK / D_FIRST (DELTA_BLOCK / DELTA_FIRST_SLICE, private in src/consensus.rs) are the times a correct leader
-   needs per block / for the first slice; they are mirrored here (trusted base of C02). *)
+   D_BLOCK / D_FIRST (DELTA_BLOCK / DELTA_FIRST_SLICE, private in src/consensus.rs, read through the cfg hook
+   consensus::verif_timing into Gen/Params.v) are the times a correct leader is given per block / for the first
+   slice (that the block producer keeps to them is part of the trusted base of C02: the simulation plays the leader). *)
 From Coq Require Import List NArith Bool.
 From AG Require Import Gen.Params.
 Import ListNotations.
 Open Scope N_scope.
 
-Definition D_BLOCK : N := 400.
-Definition D_FIRST : N := 10.
+Definition D_BLOCK : N := DELTA_BLOCK_MS.
+Definition D_FIRST : N := DELTA_FIRST_SLICE_MS.
 
 (* After stabilisation a correct leader learns a ready parent at most DELTA after any correct node announced it
    (certificates are re-broadcast), finishes the block of the i-th slot of its window (i = 0, 1, ..) at most
